@@ -314,3 +314,24 @@ func Verif_C20_san_roundtrip() {
 	verifapi.Assert("verification-reads-names", err == nil && len(got) == len(ids))
 	verifapi.Assert("verification-accepts-exactly-the-encoded-ids", found == member)
 }
+
+// Verif_C20_undecodable_name_is_an_error: a receptor otherName whose inner value is NOT a string (the
+// string's tag byte replaced by INTEGER, NULL, OCTET STRING or SEQUENCE - hand-made or foreign DER):
+// reading the node IDs back reports an error (or, for the genuine UTF8String tag, exactly the encoded
+// ID) - never a different name made up from the raw bytes.
+func Verif_C20_undecodable_name_is_an_error() {
+	verifASN1Models()
+	ext, err := MakeReceptorSAN(nil, nil, []string{"ab"})
+	verifapi.Assert("san-built", err == nil && ext != nil && len(ext.Value) > 4)
+	v := append([]byte{}, ext.Value...)
+	verifapi.Assert("inner-string-is-last", v[len(v)-4] == 0x0c && v[len(v)-3] == 2)
+	tag := []byte{0x0c, 0x02, 0x05, 0x04, 0x30}[verifapi.Choose(5)]
+	v[len(v)-4] = tag
+	names, rerr := ReceptorNames([]pkix.Extension{{Id: ext.Id, Value: v}})
+	verifapi.Cover("read-back")
+	if tag == 0x0c {
+		verifapi.Assert("genuine-string-read-back-exactly", verifapi.All(rerr == nil, len(names) == 1, names[0] == "ab"))
+	} else {
+		verifapi.Assert("undecodable-name-reported-as-an-error-never-as-another-name", rerr != nil)
+	}
+}
